@@ -322,7 +322,7 @@ Definition call_gas (avail base cost : Z) : option Z :=
   if avail <? base then None else
   let a := avail - base in
   let g := a - a / 64 in
-  if (U64 <=? cost) || (g <? cost) then Some g else Some cost.
+  if (cost <? 0) || (U64 <=? cost) || (g <? cost) then Some g else Some cost.
 
 (** dynamic gas: [None] = the instruction has none; [Some None] = out of gas / overflow;
     [Some (Some (cost, new memory total, call gas))] *)
